@@ -228,6 +228,15 @@ P["C04"] = {
              tierB("values", 3, 0, QT, require_reach=["tierB:execute-returned", "tierB:compound-fired-once"]), tierB("memo", 3, 0, T), reuseB("reuseq", 2, T)]}
 
 
+NC07 = 33
+P["C07"] = {
+    "design_ref": "DESIGN.md §8 C07 (b)", "assumptions": TIERB_ASSUME + ["each rule is observed through its candidate flag and through ALL facts after running its action list, on copies of the same symbolic facts"],
+    "bounds": "33 near-identical sibling pairs (one constant digit beyond the 6th decimal / sign / exponent / int-vs-float / one character / case / quotes and brackets forging another snapshot; one operator; one negation (paren, atom, call); one selector; one field; argument order / count / value; operand order incl. string +; grouping; assignment form; method vs field), each built natively ALONE and TOGETHER in both build orders; facts symbolic",
+    "outside": "pairs outside the generated family; more than two rules sharing a knowledge base; the Tier K snapshot-injectivity queries over SMT strings of DESIGN §8 C07 (a) are not built",
+    "runs": [{"name": "c07-sibling-pairs", "pkgdir": "zztier", "harness": TIERC_H, "entry": "VerifC07All", "tiers": QT, "templates": ["c07_%d.recipe.json" % i for i in range(NC07)],
+              "require_reach": ["c07:pair"], "bounds": "all 33 sibling pairs"}]}
+
+
 def c05(t, tiers):
     return {"name": "c05-family-%d" % t, "pkgdir": "zztier", "harness": TIERC_H, "entry": "VerifC05", "args": [t], "tiers": tiers, "templates": ["c05_%d.grl" % t],
             "require_reach": ["c05:case"], "bounds": "generated family part %d (30 expressions): evaluated through Sink = <expr> and as a rule condition on symbolic operands" % t}
